@@ -69,10 +69,10 @@ Proof. intros H. unfold new_like. by rewrite bool_decide_eq_false_2. Qed.
 (** ** 2. [__copy__] *)
 
 (** the copy: tables, counts, free index, order and roots of [s]; empty
-    computed table, dynamic reordering off *)
+    computed table, dynamic reordering off; the bound [max_nodes] of [s] *)
 Definition copy_of (s : st) : st :=
   St (succ s) (pred s) (refc s) (min_free s) ∅ (vars s) (lvl2var s) None false
-     (roots s) [] None.
+     (roots s) [] None (max_nodes s).
 
 Lemma Inv_copy_of s : Inv s → Inv (copy_of s).
 Proof.
@@ -113,6 +113,7 @@ Theorem copy_manager_spec vorder s b :
   succ b = succ s ∧ pred b = pred s ∧ refc b = refc s ∧ min_free b = min_free s ∧
   vars b = vars s ∧ lvl2var b = lvl2var s ∧ roots b = roots s ∧
   ite_tab b = ∅ ∧ last_len b = None ∧ rctx b = false ∧
+  max_nodes b = max_nodes s ∧
   Inv b ∧ (∀ L, Counts s L → Counts b L) ∧
   ∀ u, (valid b u ↔ valid s u) ∧ (∀ a, D b u a = D s u a) ∧ ∀ ρ, denv b u ρ = denv s u ρ.
 Proof.
@@ -171,6 +172,7 @@ Record Reduced (s b : st) (umap : gmap positive Z) : Prop := {
   rd_l2v : lvl2var b = lvl2var s;
   rd_off : last_len b = None;
   rd_rctx : rctx b = false;
+  rd_mx : max_nodes b = None;
   rd_dom : dom umap = dom (succ s);
   rd_node : ∀ n x, umap !! n = Some x →
      valid b x ∧ (0 < x)%Z ∧ (∀ a, D b x a = D s (Z.pos n) a) ∧
@@ -184,6 +186,7 @@ Record Reduced (s b : st) (umap : gmap positive Z) : Prop := {
 Lemma Reduced_unfold s b umap :
   Reduced s b umap ↔
   Inv b ∧ vars b = vars s ∧ lvl2var b = lvl2var s ∧ last_len b = None ∧ rctx b = false ∧
+  max_nodes b = None ∧
   dom umap = dom (succ s) ∧
   (∀ n x, umap !! n = Some x →
      valid b x ∧ (0 < x)%Z ∧ (∀ a, D b x a = D s (Z.pos n) a) ∧
@@ -195,7 +198,7 @@ Lemma Reduced_unfold s b umap :
 Proof.
   split.
   - intros HR. split_and!; apply HR.
-  - intros (?&?&?&?&?&?&?&?). by split.
+  - intros (?&?&?&?&?&?&?&?&?). by split.
 Qed.
 
 Section reduce.
@@ -206,6 +209,7 @@ Record RInv (j : nat) (b : st) (umap : gmap positive Z) : Prop := {
   ri_inv : Inv b;
   ri_off : last_len b = None;
   ri_rctx : rctx b = false;
+  ri_mx : max_nodes b = None;
   ri_vars : vars b = vars s;
   ri_l2v : lvl2var b = lvl2var s;
   ri_sound : ∀ u x, umap !! u = Some x →
@@ -243,12 +247,13 @@ Lemma RInv_extends j b b' umap : RInv j b umap → Inv b' → extends b b' → f
   RInv j b' umap.
 Proof.
   intros HR HI' He Hf. pose proof (ri_inv _ _ _ HR) as HIb.
-  destruct Hf as (F1&F2&_). destruct He as (Hsub&Ev&El).
+  destruct Hf as (F1&F2&_&_&F5). destruct He as (Hsub&Ev&El).
   assert (He : extends b b') by done.
   split.
   - done.
   - rewrite F1. apply HR.
   - rewrite F2. apply HR.
+  - rewrite F5. apply HR.
   - rewrite <- Ev. apply HR.
   - rewrite <- El. apply HR.
   - intros u x Hx. destruct (ri_sound _ _ _ HR _ _ Hx) as (?&?&?&?&HD).
@@ -276,7 +281,7 @@ Proof.
   assert (Hlq' : t_lvl t < lvl_of b (flip q (t_hi t))) by lia.
   destruct (find_or_add_spec _ _ _ _ _ _ HIb Hvp Hvq Hlp' Hlq' Efa) as (HI'&He&Hf&Hr).
   destruct r as [x|e]; cycle 1.
-  { exfalso. destruct Hr as (_&[? Hs]&_). rewrite (ri_off _ _ _ HR) in Hs. done. }
+  { by destruct (benign_never b e (ri_off _ _ _ HR) (ri_mx _ _ _ HR) (proj1 Hr)). }
   destruct Hr as (Hvx&Hlx&HDx).
   assert (HDu : ∀ a, D b' x a = D s (Z.pos u) a).
   { intros a. rewrite HDx, HDq, HDp.
@@ -479,6 +484,7 @@ Proof.
       rewrite (ri_l2v _ _ _ HR), HDb. apply H. }
     split.
     + eapply Inv_same; [|exact HIb]. by repeat split.
+    + apply HR.
     + apply HR.
     + apply HR.
     + apply HR.
